@@ -406,6 +406,19 @@ class Interp:
             if isinstance(v, Opaque):
                 return Opaque("%s.%s" % (v.tag, e[2]), e[3] if len(e) > 3 else None)
             return Opaque("proj")
+        if isinstance(v, Ptr):
+            v = self.deref(p, v)
+        if k == "cidx" and isinstance(v, Tup):
+            # [offset, min_length, from_end] on a slice / array of known elements
+            off, from_end = int(e[1]), bool(e[3]) if len(e) > 3 else False
+            i = len(v.fields) - off if from_end else off
+            if 0 <= i < len(v.fields):
+                return v.fields[i]
+        if k == "subslice" and isinstance(v, Tup):
+            frm, to, from_end = int(e[1]), int(e[2]), bool(e[3]) if len(e) > 3 else False
+            hi = len(v.fields) - to if from_end else to
+            if 0 <= frm <= hi <= len(v.fields):
+                return Tup(v.fields[frm:hi])
         return Opaque("idx")
 
     def write_place(self, p, fid, place, val):
@@ -602,6 +615,13 @@ class Interp:
             if rv["un"] == "PtrMetadata":
                 if isinstance(a, Str):
                     return Int(len(a.s.encode()), "usize")
+                aa = a
+                n_ = 0
+                while isinstance(aa, Ptr) and n_ < 4:
+                    aa = self.deref(p, aa)
+                    n_ += 1
+                if isinstance(aa, Tup):
+                    return Int(len(aa.fields), "usize")
             return Opaque("un:%s(%s)" % (rv["un"], getattr(a, "tag", "?")))
         if "discr" in rv:
             v = self.read_place(p, fid, rv["discr"])
